@@ -121,9 +121,13 @@ impl V {
             },
             V::Nothing => act(Nothing, mode, a),
             V::Cap(c) => act(c, mode, a),
+            // with the natural tag: the variants without `_as` (the same encoders under their default tag)
+            V::Os(tag, os) if *tag == Tag::OCTET_STRING => act(os.encode_ref(), mode, a),
             V::Os(tag, os) => act(os.encode_ref_as(*tag), mode, a),
+            V::OSlice(tag, b) if *tag == Tag::OCTET_STRING => act(OctetString::encode_slice(b.as_slice()), mode, a),
             V::OSlice(tag, b) => act(OctetString::encode_slice_as(b.as_slice(), *tag), mode, a),
             V::Wrap(m, inner) => act(OctetString::encode_wrapped(*m, &**inner), mode, a),
+            V::BSlice(tag, u, b) if *tag == Tag::BIT_STRING => act(BitString::encode_slice(b.as_slice(), *u), mode, a),
             V::BSlice(tag, u, b) => act(BitString::encode_slice_as(b.as_slice(), *u, *tag), mode, a),
         }
     }
@@ -190,7 +194,24 @@ pub fn parse_v(p: &mut P) -> Option<V> {
         "J" => V::OptSome(Box::new(parse_v(p)?)),
         "H" => { let ar: usize = p.next()?.parse().ok()?; let ix: usize = p.next()?.parse().ok()?; V::Choice(ar, ix, Box::new(parse_v(p)?)) }
         "Z" => V::Nothing,
-        "K" => { let m = parse_mode(p.next()?)?; V::Cap(Captured::from_values(m, Raw(of_hex(p.next()?)?))) }
+        "K" => {
+            let m = parse_mode(p.next()?)?;
+            let raw = of_hex(p.next()?)?;
+            // three ways to the same captured value: from_values, the builder (extended in two steps), and a
+            // round through into_builder
+            let cap = match raw.len() % 3 {
+                0 => Captured::from_values(m, Raw(raw)),
+                1 => {
+                    let mut b = Captured::builder(m);
+                    let k = raw.len() / 2;
+                    b.extend(Raw(raw[..k].to_vec()));
+                    b.extend(Raw(raw[k..].to_vec()));
+                    b.freeze()
+                }
+                _ => Captured::from_values(m, Raw(raw)).into_builder().freeze(),
+            };
+            V::Cap(cap)
+        }
         "OS" => {
             let tag = parse_tag(p.next()?)?;
             let m = parse_mode(p.next()?)?;
